@@ -21,6 +21,10 @@ def main():
         for q in (prefixes if c.tier == "thorough" else rng.sample(prefixes, 9)):
             for n in range(-4, 5):
                 rel.append({"p": p, "q": q, "u": rng.choice(UNITS), "m": rng.choice(MAGS), "n": n})
+    # every ordered pair of registered prefixes once more (n = 1): the cancellation relations are exhaustive over pairs
+    for p in prefixes:
+        for q in prefixes:
+            rel.append({"p": p, "q": q, "u": UNITS[(len(rel)) % len(UNITS)], "m": MAGS[len(rel) % 5], "n": rng.choice([1, 2, -1, 3])})
     rr = impl("prefixsem_worker.py", {"cases": rel})["results"]
     for case, rec in zip(rel, rr):
         c.count(case, nontrivial=True)
